@@ -248,6 +248,16 @@ func (c *Ctx) writeEvidence(violations int) {
 	if len(c.Ev.Samples) == 0 {
 		cov["samples"] = []interface{}{"(no case was generated)"}
 	}
+	if c.Ev.Assumptions == nil {
+		c.Ev.Assumptions = []string{}
+	}
+	c.Ev.Assumptions = append(c.Ev.Assumptions,
+		"TLC and the TLA+ reading of the property (declarative modules) are trusted",
+		"the materialiser writes the modelled graph (checked per repository with git cat-file --batch-all-objects)",
+		"values >= 10^9 are outside the range judged by TLC in this check and are counted as not judged")
+	if c.notes == nil {
+		c.notes = []string{}
+	}
 	ev := map[string]interface{}{
 		"property_id": c.Prop,
 		"tier":        c.Tier,
